@@ -247,7 +247,7 @@ def life(ctx, exe):
     # resource threshold: the same transitions with the process holding > 1000 descriptors, so that what the library opens
     # lands at FD_SETSIZE (1024) or above; k = number of slots left free below 1024 (they are taken first)
     if hifd:
-        for k in ([0] if q else [0, 3]):
+        for k in [0]:
             v = "life-hifd%d" % k
             objcheck.replay_cover(ctx, g, [init], exe, v, [], life_keyfn, walks=(100, 40) if q else (500, 60),
                                   jobs=J, env={"VH_WATCHDOG": "20", "VH_HIFD": str(k)}, max_levels=7 if q else 9)
